@@ -116,11 +116,16 @@ def bounds(tier):
                 "nodes), calc_node_ages (default check when the state is ultrametric), calc_node_root_distances, "
                 "encode_bipartitions, phylogenetic_distance_matrix, mrca(first, last leaf; is_bipartitions_updated=False)",
             "pairs": "every ordered pair (includes the same operation twice)",
-            "triples": ("[x; y; z] with x a query or the midpoint search, y a re-rooting call (update_bipartitions=False), "
-                        "z = x again or mrca; trees with defined rooting") if q else
+            "triples": ("x = every query (in triples also calc_node_root_distances(all nodes), max_distance_from_root, "
+                        "minmax_leaf_distance_from_root, num_lineages_at(1.3)) or the midpoint search; [x; y; reroot_at_midpoint], "
+                        "[x; y; x again] and [x; y; mrca] with y EVERY re-rooting call of the menu at every target; "
+                        "[x; y; q'] with q' every query that has a reference answer and y one call of each re-rooting kind "
+                        "(last internal node / edge, first and last node as outgroup, randomly_reorient) on the "
+                        "distinct-integer trees; trees with defined rooting") if q else
                        ("n <= 3: every triple; n = 4: every [x; y; z] with x, z queries or midpoint and y any other "
-                        "operation; n = 5: [x; re-rooting y; x again or mrca]"),
-            "query answers compared": "path lengths, leaf root distances, split set / per-edge leafset bitmasks, common "
+                        "operation; n = 5: the quick tier's triple families"),
+            "query answers compared": "path lengths, leaf and all-node root distances, their min / max, lineages spanning a "
+                                      "distance, split set / per-edge leafset bitmasks, common "
                                       "ancestor, root age on ultrametric states; distance_from_tip and other node ages "
                                       "are exercised only (C17's subject)",
         },
@@ -753,7 +758,13 @@ def apply_op(tree, nodes, op, target, a):
             return tree.calc_node_ages()
         return tree.calc_node_ages(ultrametricity_precision=False)
     if op == "q_calc_node_root_distances":
-        return tree.calc_node_root_distances(return_leaf_distances_only=True)
+        return tree.calc_node_root_distances(return_leaf_distances_only=not a.get("all"))
+    if op == "q_max_distance_from_root":
+        return tree.max_distance_from_root()
+    if op == "q_minmax_leaf_distance_from_root":
+        return tree.minmax_leaf_distance_from_root()
+    if op == "q_num_lineages_at":
+        return tree.num_lineages_at(a["d"])
     if op == "q_encode_bipartitions":
         return tree.encode_bipartitions()
     if op == "q_phylogenetic_distance_matrix":
@@ -768,6 +779,25 @@ def apply_op(tree, nodes, op, target, a):
 REROOTERS = ("reseed_at", "reroot_at_node", "reroot_at_edge", "to_outgroup_position", "randomly_reorient")
 QUERIES = ("q_distance_from_root", "q_distance_from_tip", "q_calc_node_ages", "q_calc_node_root_distances",
            "q_encode_bipartitions", "q_phylogenetic_distance_matrix", "q_mrca")
+# further root-distance queries, offered in the triples only (they all leave `root_distance` on the nodes)
+MORE_QUERIES = ("q_calc_node_root_distances", "q_max_distance_from_root", "q_minmax_leaf_distance_from_root", "q_num_lineages_at")
+# queries whose answer the reference model fixes (query_value_problem)
+VALUED = ("q_distance_from_root", "q_calc_node_root_distances", "q_max_distance_from_root", "q_minmax_leaf_distance_from_root",
+          "q_num_lineages_at", "q_encode_bipartitions", "q_phylogenetic_distance_matrix", "q_mrca")
+LINEAGE_DISTANCE = 1.3     # never the root distance of a node here (lengths are integers, halves, quarters, eighths)
+
+
+def all_root_distances(node):
+    """[(root distance of parent, root distance)] of every non-root node of a snapshot"""
+    out = []
+
+    def rec(nd, d):
+        for c in nd[3]:
+            dc = d + (c[2] or 0)
+            out.append((d, dc))
+            rec(c, dc)
+    rec(node, 0.0)
+    return out
 
 
 def query_value_problem(op, a, val, tree, nodes, after, inv, eq, labels):
@@ -794,9 +824,26 @@ def query_value_problem(op, a, val, tree, nodes, after, inv, eq, labels):
                 return "distance_from_root of the leaves %s, the tree has %s" % (got, want)
         else:
             got = sorted(float(v) for v in val)
-            want = sorted(float(v) for k, v in rd.items())
+            if a.get("all"):
+                want = sorted([0.0] + [float(d) for _, d in all_root_distances(after)])
+            else:
+                want = sorted(float(v) for k, v in rd.items())
             if len(got) != len(want) or any(not eq(g, w) for g, w in zip(got, want)):
                 return "calc_node_root_distances returned %s, the tree has %s" % (got, want)
+    elif op in ("q_max_distance_from_root", "q_minmax_leaf_distance_from_root"):
+        rd = [float(v) for v in ref.root_distances(after).values()]
+        if op == "q_max_distance_from_root":
+            if not eq(float(val), max(rd)):
+                return "max_distance_from_root() = %r, the deepest leaf is at %r" % (val, max(rd))
+        elif not (eq(float(val[0]), min(rd)) and eq(float(val[1]), max(rd))):
+            return "minmax_leaf_distance_from_root() = %r, the leaves lie between %r and %r" % (val, min(rd), max(rd))
+    elif op == "q_num_lineages_at":
+        d = a["d"]
+        ard = all_root_distances(after)
+        want = sum(1 for (pd, nd_) in ard if pd < d < nd_)
+        # (a node exactly at distance d would make the count a matter of convention: not compared then)
+        if val != want and not any(eq(nd_, d) for _, nd_ in ard):
+            return "num_lineages_at(%r) = %r, %d edges of the tree span that distance" % (d, val, want)
     elif op == "q_encode_bipartitions":
         es = encoding_splits(tree, labels)
         if es != inv.splits:
@@ -874,8 +921,9 @@ def pat_ultrametric(shape):
     return out
 
 
-def seq_menu(bf, eq):
-    """Reduced operation menu on the tree state `bf` (targets = pre-order indices of that state)."""
+def seq_menu(bf, eq, more=False):
+    """Reduced operation menu on the tree state `bf` (targets = pre-order indices of that state).
+    more=True adds the further root-distance queries (triples)."""
     k = bf.k
     internal = [i for i in range(k) if bf.is_internal(i)]
     for i in internal:
@@ -905,6 +953,22 @@ def seq_menu(bf, eq):
             yield (q, None, {"labels": [lab[0], lab[-1]]})
         else:
             yield (q, None, {})
+    if more:
+        yield ("q_calc_node_root_distances", None, {"all": True})
+        yield ("q_max_distance_from_root", None, {})
+        yield ("q_minmax_leaf_distance_from_root", None, {})
+        yield ("q_num_lineages_at", None, {"d": LINEAGE_DISTANCE})
+
+
+def representative_rerooters(bf):
+    """One call of each re-rooting kind (two outgroups), used as the middle step of [q; y; q']."""
+    k = bf.k
+    internal = [i for i in range(k) if bf.is_internal(i)]
+    out = set([("to_outgroup_position", 1), ("to_outgroup_position", k - 1), ("randomly_reorient", None)])
+    if internal:
+        i = internal[-1]
+        out |= set([("reseed_at", i), ("reroot_at_node", i), ("reroot_at_edge", i)])
+    return out
 
 
 def run_sequence(case, ctx, deciding=True, judge_from=0):
@@ -946,7 +1010,7 @@ def run_sequence(case, ctx, deciding=True, judge_from=0):
             after_rooted, after = ref.snapshot(tree)
         except RuntimeError:
             return "malformed", None, None
-        if step + 1 < len(case["seq"]):
+        if step + 1 < len(case["seq"]) and step + 1 >= judge_from:
             bf = Before(after)
     return "ok", after, tree._is_rooted
 
@@ -970,30 +1034,43 @@ def run_seq_chunk(chunk, ctx):
     for pname, lens, rooted in seq_trees(n, si, tier):
         if triples == "memo" and tier == "quick" and rooted is None:
             continue
+        valued_third = pname == "inc"           # the [q; y; q'] family runs on the distinct-integer trees
         base = {"shape": shape, "lens": list(lens), "rooted": rooted, "dyadic": True}
         inv = Before(ref.mk(shape, lens=list(lens)))
         ctx.count("sequence_trees")
 
-        def extend(prefix, bf, depth, maxdepth):
-            for (op, target, a) in seq_menu(bf, eq):
+        def extend(prefix, bf, depth, maxdepth, yrep=False):
+            reps = representative_rerooters(bf) if (triples == "memo" and depth == 1) else ()
+            for (op, target, a) in seq_menu(bf, eq, more=(triples == "memo")):
                 # C = operations that compute (and might remember) something: the queries and the midpoint search
                 inC = op.startswith("q_") or op == "reroot_at_midpoint"
                 if triples == "query-op-query" and (inC != (depth != 1)):
                     continue
+                isrep = False
                 if triples == "memo":
-                    # [x in C; a re-rooting y; x again or mrca]: what x remembered meets a tree that has moved on
+                    # what x computed (and perhaps remembered) meets a tree that has moved on:
+                    #   [x; y; reroot_at_midpoint]  x every query or the midpoint search, y EVERY re-rooting call
+                    #   [x; y; x again]             the same
+                    #   [x; y; q']                  q' every query with a reference answer, y one call of each
+                    #                               re-rooting kind (representative_rerooters)
                     if depth == 0 and not inC:
                         continue
-                    if depth == 1 and (op not in REROOTERS or a.get("ub")):
-                        continue
-                    if depth == 2 and not (op == "q_mrca" or (op == prefix[0][0] and a == prefix[0][2])):
-                        continue
+                    if depth == 1:
+                        if op not in REROOTERS:
+                            continue
+                        isrep = (op, target) in reps and not a.get("ub")
+                    if depth == 2:
+                        again = op == prefix[0][0] and a == prefix[0][2]
+                        mid = op == "reroot_at_midpoint" and not a.get("ub")
+                        valued = op in VALUED and valued_third and (yrep or op == "q_mrca")
+                        if not (again or mid or valued):
+                            continue
                 seq = prefix + [[op, target, a]]
                 case = dict(base, seq=seq)
                 if triples in ("query-op-query", "memo") and len(seq) < 3:       # prefixes are judged by the pairs chunk
                     out, after, _ = run_sequence(case, ctx, False, judge_from=len(seq))
                     if out == "ok":
-                        extend(seq, Before(after), depth + 1, maxdepth)
+                        extend(seq, Before(after), depth + 1, maxdepth, isrep)
                     continue
                 ctx.case((shape, tuple(lens), rooted, tuple((o, t, tuple(sorted((k2, tuple(v) if isinstance(v, list) else v)
                                                                               for k2, v in x.items()))) for o, t, x in seq)),
